@@ -32,12 +32,15 @@ end
 
 instance : BEq Value := ⟨Value.beq⟩
 
-/-- An observed object: identity, `_api` package?, active?, hash of its `FAConfig` serialisation. -/
+/-- An observed object (one entry of `ConfigType::GetObjects()`): identity, `_api` package?, active?, hash
+    of its `FAConfig` serialisation, and `reg`: looking its name up (`ConfigType::GetObject(name)`, what
+    every API call does to address an object) returns this very object. -/
 structure OObj where
   key : Key
   api : Bool
   active : Bool
   hash : Str
+  reg : Bool := true
 deriving DecidableEq, Repr
 
 structure World where
@@ -56,6 +59,8 @@ def nodupKeys : List Key → Bool
 
 structure CreateIn where
   ty : Str
+  /-- the type's directory below `conf.d` (`Type::GetPluralName().ToLower()`, type metadata) -/
+  plural : Str := []
   name : Str
   ioe : Bool
   tmpl : List Str
@@ -163,10 +168,21 @@ def faithful (i : CreateIn) (o : CreateObs) (seen : List (Str × Value)) : Bool 
 
 def subsetKeys (a b : List Key) : Bool := a.all (fun k => b.contains k)
 
+/-- every object that exists can be addressed by its name: an object nobody can look up can neither be
+    deleted nor does it stop a second object of the same name from being created -/
+def allRegistered (w : World) : Bool := w.objs.all (·.reg)
+
+/-- objects that appeared as a side effect of creating `k` (apply rules) were not "created at runtime
+    through the API": they must not carry the `_api` package, which is what `DeleteObject` takes for
+    "created at runtime" and whose file it removes -/
+def sideEffectsNotRuntime (before after : World) (k : Key) : Bool :=
+  after.objs.all (fun x => x.key = k || before.has x.key || !x.api)
+
 def specCreate (before : World) (i : CreateIn) (o : CreateObs) : Option String :=
   let k : Key := ⟨i.ty, i.name⟩
   let after := o.after
   if !nodupKeys (after.objs.map (·.key)) then some "unique_names"
+  else if !allRegistered after then some "registered_by_name"
   else
     match o.cfg with
     | none => if after = before then none else some "rejected_leaves_nothing"
@@ -174,18 +190,23 @@ def specCreate (before : World) (i : CreateIn) (o : CreateObs) : Option String :
       if before.has k then
         (if o.res = some .ok || after ≠ before then some "duplicate_refused" else none)
       else if o.res ≠ some .ok then
-        (if after = before then none else some "fail_leaves_nothing")
+        (if after ≠ before then some "fail_leaves_nothing"
+         -- the generated text is the one object statement also when the creation then fails for another
+         -- reason: a text the compiler cannot read (or reads differently) is the writer's doing
+         else if !structurePreserved i o cfg then some "structure_preserved" else none)
       else
         match after.find k with
         | none =>
           if !i.ioe then some "success_without_object"
-          else if after ≠ before then some "ignored_leaves_nothing" else none
+          else if after ≠ before then some "ignored_leaves_nothing"
+          else if !structurePreserved i o cfg then some "structure_preserved" else none
         | some ob =>
           if !ob.active then some "active_object"
           -- what the new object hangs on must exist: an object that was deleted, or whose creation failed,
           -- must not be reachable any more
           else if o.parents.any (fun p => after.objs.any (fun x => x.key.ty = p.ty) && !after.has p) then
             some "dangling_parent"
+          else if !sideEffectsNotRuntime before after k then some "generated_not_runtime"
           -- apart from the object and the children apply rules generated for it (all new) nothing changed
           else if o.children.any (fun c => before.has c) ||
               after.objs.filter (fun x => x.key ≠ k && !o.children.contains x.key) ≠ before.objs ||
@@ -200,6 +221,11 @@ def specCreate (before : World) (i : CreateIn) (o : CreateObs) : Option String :
             | some p =>
               if !(after.files.contains p && !before.files.contains p && after.files.filter (· ≠ p) = before.files) then
                 some "file_written"
+              -- "one .conf file per runtime-created object": the file is the one the object's type and name
+              -- prescribe (`conf.d/<type directory>/<escaped name>.conf`, distinct for distinct objects and
+              -- inside the type's directory whatever the name contains: `confPath_injective`, `confPath_in_type_dir`)
+              else if !pathExpected i.plural i.name p then
+                some "file_where_expected"
               else if !structurePreserved i o cfg then some "structure_preserved"
               else
                 match o.attrs with
@@ -213,15 +239,22 @@ def dependentsF : Nat → List (Key × Key) → List Key → List Key
     let more := (deps.filter (fun e => acc.contains e.2 && !acc.contains e.1)).map (·.1)
     if more.isEmpty then acc else dependentsF f deps (acc ++ more.eraseDups)
 
-def specDelete (before : World) (k : Key) (cascade found : Bool) (res : Option Res) (file : Option Str)
-    (deps : List (Key × Key)) (after : World) : Option String :=
+def fileOfKey (fileOf : List (Key × Str)) (k : Key) : Option Str := (fileOf.find? (·.1 = k)).map (·.2)
+
+/-- `created` = the objects of `before` that a create CALL of this history produced (the history's notion of
+    "created at runtime"; everything else was loaded from the static configuration or generated by an apply
+    rule); `fileOf` = the file each of them was written to. -/
+def specDelete (before : World) (k : Key) (cascade found : Bool) (res : Option Res) (created : List Key)
+    (fileOf : List (Key × Str)) (deps : List (Key × Key)) (after : World) : Option String :=
+  let file := fileOfKey fileOf k
   if !nodupKeys (after.objs.map (·.key)) then some "unique_names"
+  else if !allRegistered after then some "registered_by_name"
   else if !found then (if after = before then none else some "absent_noop")
   else
     match before.find k with
     | none => some "absent_noop"
     | some ob =>
-      if !ob.api then
+      if !ob.api || !created.contains k then
         (if res ≠ some .ok && after = before then none else some "refuse_non_api")
       else
         let kids := (deps.filter (fun e => e.2 = k && before.has e.1)).map (·.1)
@@ -236,6 +269,12 @@ def specDelete (before : World) (k : Key) (cascade found : Bool) (res : Option R
               (match file with | some p => after.files.contains p | none => false) then
             some "delete_removes_object_and_file"
           else if !subsetKeys gone allowed then some "cascade_only_dependents"
+          -- a cascade is complete: every (transitive) dependent is gone; and whatever object went, its
+          -- configuration item and its file went with it
+          else if (allowed.any (fun d => after.has d)) ||
+              gone.any (fun g => after.items.contains g ||
+                (match fileOfKey fileOf g with | some p => after.files.contains p | none => false)) then
+            some "cascade_complete"
           else if !(after.objs.all (fun x => before.objs.contains x)) || after.glob ≠ before.glob then
             some "others_untouched"
           else none
